@@ -313,6 +313,11 @@ def level2(full=False):
             for b in (ops if full else ops[:6] + ops[16:20]):
                 out.append(("cond", c, a, b))
     for a in ops:
+        ta = text(a)
+        out.append(("raw", None, f"[{ta}]"))
+        out.append(("raw", None, f'{{"k": {ta}}}'))
+        out.append(("raw", None, f"{{{ta}: 1}}"))
+        out.append(("raw", None, f"[[{ta}], 1]"))
         out.append(("has", a, "a"))
         out.append(("call", "size", a))
         out.append(("call", "type", a))
